@@ -17,7 +17,8 @@ BUDGET = {"quick": 50, "thorough": 900}
 RULE = (
     "mode 'probe': one message with ttl in {1 s .. 1 h} (immediate, or delayed with its due time before/after the expiry) and a "
     "NORMAL consumer whose first fetch is placed at E + d, E = timestamp + ttl, d in {-1 s, -1 ms, -1 us, 0, +1 us, +1 ms, +1 s} "
-    "(step cost 0 makes 'exactly at E' reachable on the in-memory broker); then a DEAD-category consumer must retrieve an "
+    "(step cost 0 makes 'exactly at E' reachable on the in-memory broker); then (in half of the runs after somebody browsed the "
+    "dead-letter queue with a foreign topic filter) a DEAD-category consumer must retrieve an "
     "expired message with identical key, payload and parameters. mode 'worker': a worker (tasks_limit 1-2, so that prefetched "
     "messages wait behind long actors) processes 2-6 jobs with and without ttl: immediate, delayed, retried (timestamp "
     "unchanged) and recurring (timestamp restarted). Oracle: no actor start after E (+5 ms), whether the message was taken after E or expired while waiting for a free slot "
@@ -36,7 +37,7 @@ def gen(rng, broker, tier):
         ttl = rng.choice([1, 1, 2, 5, 60, 3600])
         return {"mode": "probe", "ttl_s": ttl, "offset_us": rng.choice(OFFSETS),
                 "delay_us": rng.choice([None, None, int(ttl * 0.5e6), int(ttl * 1e6) + 500_000]),
-                "prio": rng.choice([0, 5, 9]), "jobs": [],
+                "prio": rng.choice([0, 5, 9]), "jobs": [], "browse": rng.choice([None, None, ["other"], ["other", "more"]]),
                 "knobs": {"step_cost": rng.choice([0, 0, 0, 1]), "net": net}}
     n = rng.randint(2, 6)
     jobs = []
@@ -124,6 +125,18 @@ async def _probe(sim, sc, out):
         if place != "dead":
             V.append(violation("expired-not-dead", f"C12/{b}/probe/expired-message-in-{place}", offset=sc["offset_us"]))
             return
+        if sc.get("browse"):
+            # somebody looks through the dead-letter queue for messages of other topics first: finds nothing, changes nothing
+            bcons = mb.get_consumer("q", sc["browse"], None, r.MessageCategory.DEAD)
+            await bcons.start()
+            bres = await consume_with_timeout(bcons, 0.5)
+            if bres is not None:
+                # (the in-memory DEAD consumer does not filter by topic - not this property's subject: the browser puts back
+                # what it did not ask for)
+                await mb.reject(bres[0])
+            await bcons.finish()
+            probe(out, "dead-letter-queue-browsed-with-a-foreign-topic-filter")
+            await asyncio.sleep(0.3)
         dcons = mb.get_consumer("q", None, None, r.MessageCategory.DEAD)
         await dcons.start()
         dres = await consume_with_timeout(dcons, 3.0)
